@@ -604,7 +604,7 @@ def known_mechs(pid):
     return out
 
 
-def attribute(model, o, passes, fired_in, known=(), prefer=None):
+def attribute(model, o, passes, fired_in, known=(), prefer=None, first=None):
     """Which fired mechanism is necessary for the failure?
 
     `passes(m2) -> bool` re-judges a re-optimized model.  A failure is attributed to a *known-defective*
@@ -639,6 +639,11 @@ def attribute(model, o, passes, fired_in, known=(), prefer=None):
                 return name
         return singles[0] if singles else kn[0]
     rest = [f for f in fired if not is_known(f)]
+    if first:
+        # the failure's kind names the class of mechanism that can produce it (a result DTYPE can only change where a node is
+        # replaced by a folded constant): try that class before the general priority order, else a shape evaluator further
+        # upstream, without which nothing downstream would be constant, takes the blame
+        rest = [f for f in rest if f.startswith(first)] + [f for f in rest if not f.startswith(first)]
     for name in rest:
         if trial(kn + [name]):
             return name
